@@ -106,6 +106,25 @@ def contains (hay needle : List Nat) : Bool :=
   | [] => needle.isEmpty
   | _ :: t => needle.isPrefixOf hay || contains t needle
 
+/-- `_enable()`: read chunk after chunk until one leaves the connection ready (`none`: the chunks ran out first — the
+    code would go on waiting, it has no time-out there) -/
+def enable (st : State) : List Chunk → Except Exc (Option State)
+  | [] => .ok none
+  | c :: rest =>
+      match parseChunk st c with
+      | .error e => .error e
+      | .ok st' => if st'.enabled then .ok (some st') else enable st' rest
+
+/-- `cmd_header = f'&{self.selected_device}='`, as bytes -/
+def cmdHeader (st : State) : List Nat := [38] ++ ((st.selected.getD "None").toList.map Char.toNat) ++ [61]
+
+/-- `setup()`: the handshake from the state after `__init__`, then the command header -/
+def setup (deviceName : Option String) (chunks : List Chunk) : Except Exc (Option (State × List Nat)) :=
+  (enable (State.init deviceName) chunks).map fun r => r.map fun st => (st, cmdHeader st)
+
+/-- a command sent after `setup()`: `cmd_header + hexlify(data)` -/
+def commandAfterSetup (hdr : List Nat) (data : List Nat) : List Nat := hdr ++ hexlify data
+
 /-- outcome of `_transmit`: the reply read from the control socket, or a socket error before that -/
 inductive Reply
   | socketError
